@@ -151,7 +151,7 @@ def fp_pa_plan(url, strip_suffix=False, platform_aware=True):
 
         t = fingerprint_url(url, unsplit=False, strip_suffix=strip_suffix, platform_aware=True)
         s = fingerprint_url(url, strip_suffix=strip_suffix, platform_aware=True)
-        return [list(t), s]
+        return [t if isinstance(t, str) else list(t), s]  # a str: the unparseable url, returned as it is
 
     return [(line, lambda: lib.guarded(real))]
 
